@@ -3,6 +3,7 @@ import RattrDriver.C15
 import RattrDriver.Pipeline
 import RattrModel.DiagSites
 import RattrModel.MainRun
+import RattrModel.MainCache
 import RattrModel.Generated.C16
 
 /- Driver ops of C16: `c16_tables` (the model's source tables, so that the harness never keeps a
@@ -88,5 +89,25 @@ def handleOut (payload : Json) : R Json := do
                   ("printed", C15.jLines r.diag.printed),
                   ("stdout", match r.stdout with | some d => jPrinted d | none => Json.null)]
     return Json.mkObj [("outcome", Json.str "ok"), ("keys", jStrList (st.keys.map Str.toS)), ("runs", jList runs)]
+
+def parseGate (s : String) : R MainCache.Gate :=
+  match MainCache.Gate.every.find? (fun g => g.name == s) with
+  | some g => pure g
+  | none => throw s!"unknown gate state {s}"
+
+/-- op `c16_cache`: `MainCache.mainCache` on an event list (what analysis + simplification emit), the
+cache set-up (`refresh`, `gate`, `writable`) and a list of configurations. -/
+def handleCache (payload : Json) : R Json := do
+  let evs ← (← asArr (← field payload "events")).mapM C15.parseEvent
+  let cfgs ← (← asArr (← field payload "cfgs")).mapM C15.parseCfg
+  let s : MainCache.Setup := { refresh := (← asBool (← field payload "refresh")),
+                               gate := (← parseGate (← asStr (← field payload "gate"))),
+                               writable := (← asBool (← field payload "writable")) }
+  let runs := cfgs.map fun cfg =>
+    let r := MainCache.mainCache s cfg evs
+    Json.mkObj [("exit", Json.num r.diag.exit), ("output", Json.bool r.diag.output),
+                ("buckets", C15.jState r.diag.state), ("printed", C15.jLines r.diag.printed),
+                ("cache", Json.str r.cache.name)]
+  return Json.mkObj [("runs", jList runs)]
 
 end Rattr.Driver.C16
